@@ -300,7 +300,7 @@ TRecvBest ==
         \* the documented form may have moved the session in ways the property does not describe)
         /\ Mode # "C15" => \E m \in C!Legal(sOf[k]) : C!TokenNames(r.mv, m)
         \* within the time the limits allow, and promptly after a stop
-        /\ Mode \in {"C09", "C10"} =>
+        /\ Mode \in {"C09", "C10", "C10U"} =>
              LET a == AllowedMs(limOf[k], sOf[k].turn) IN
              /\ (a # -1 => r.t - tOf[k] <= a + Allowance)
              /\ ((stopped[k] /\ tStop # -1) => r.t - Max2(tStop, tOf[k]) <= Allowance)
@@ -318,7 +318,8 @@ TRecvOther ==
 \* an error message on stderr about a rejected line: allowed, no state change.
 \* "refused" (a go refused because a search is running) and "panic" have no spec action.
 TStderr ==
-  /\ l <= N /\ Rec[l].ev = "stderr" /\ Rec[l].kind = "error"
+  /\ l <= N /\ Rec[l].ev = "stderr"
+  /\ (Rec[l].kind = "error" \/ (Rec[l].kind = "refused" /\ ~Disciplined))
   /\ Consume /\ KeepChess
   /\ UNCHANGED <<vars, gsess, ghist, goq, pend, sOf, tOf, limOf, dOf, tStop, readyQ, quitSent, lastT>>
 
